@@ -172,7 +172,10 @@ def build_variant_tree(v: Variant):
     with open(path) as fh:
         srctext = fh.read()
     mod = ast.parse(srctext)
-    applied = bool(v.mutate(mod))
+    try:
+        applied = bool(v.mutate(mod))
+    except (StopIteration, IndexError, AttributeError, KeyError, ValueError, TypeError):
+        applied = False  # the construct the edit looks for is not there (any more)
     if not applied:
         return None, False
     ast.fix_missing_locations(mod)
@@ -184,7 +187,9 @@ def build_variant_tree(v: Variant):
     return Tree(overrides={v.relpath: new_src}), True
 
 
-def run_variant(v: Variant, props: Optional[List[str]] = None) -> dict:
+def run_variant(v: Variant, props: Optional[List[str]] = None, presence: bool = False) -> dict:
+    """presence=True: the expected finding only has to be present on the variant (used by positive controls);
+    otherwise it has to be new relative to the current tree."""
     tree, applied = build_variant_tree(v)
     if not applied:
         return {"id": v.id, "kind": v.kind, "applied": False, "detected": False, "new": []}
@@ -196,7 +201,7 @@ def run_variant(v: Variant, props: Optional[List[str]] = None) -> dict:
         except AnalysisError as e:
             new.append((p, "ANALYSIS-ERROR", str(e)))
             continue
-        base = baseline(p)
+        base = set() if presence else baseline(p)
         for k, f in fk.items():
             if k not in base:
                 new.append((p, k[0], k[1]))
